@@ -112,6 +112,7 @@ Definition s_right := Eval vm_compute in lit "right".
 Definition r_parse := Eval vm_compute in lit "Failed to parse file".
 Definition r_transform := Eval vm_compute in lit "Failed to transform file".
 Definition r_parse_xml := Eval vm_compute in lit "Failed to parse XML file".
+Definition r_read := Eval vm_compute in lit "Failed to read file".
 Definition s_pixee := Eval vm_compute in lit "pixee".
 Definition s_codemodder_python := Eval vm_compute in lit "codemodder-python".
 End Keys.
@@ -263,15 +264,69 @@ Definition xml_file (xv : xml_apply_variant) (fv : failure_variant) (V : validat
            end
        end.
 
-(** The tables the pipeline model depends on. *)
-Record tables := { t_libcst : libcst_apply_variant; t_xml : xml_apply_variant; t_fail : failure_variant;
-                   t_val : validators }.
+(** [RegexTransformerPipeline._apply] / [SastRegexTransformerPipeline._apply]: one
+    [Change(lineNumber=lineno + 1, description=self.change_description, findings=…)] per rewritten line
+    ([rq_line] = lineno + 1, [rq_findings] = [get_findings_for_location]; [rq_desc] is not used). *)
+Fixpoint regex_changes (V : validators) (cd : str) (reqs : list change_req) : option (list change) :=
+  match reqs with
+  | [] => Some []
+  | q :: r =>
+      match mk_change V (rq_line q) (Some cd) SideRight None None (Some (rq_findings q)) with
+      | None => None
+      | Some c => match regex_changes V cd r with None => None | Some cs => Some (c :: cs) end
+      end
+  end.
 
-Inductive pipe_kind := PLibcst | PXml (change_description : str).
+(** [RegexTransformerPipeline.apply].  Pinned tree: NO failure handling, an undecodable file, an exception of [_apply] or a
+    ValidationError of [Change(...)] leaves [apply] and aborts the whole run (no report: outside C15's quantifier; DESIGN §6
+    row 21).  Repaired: both are caught and recorded with [add_failure].  [regex_aborts] says when the run aborts; the
+    value of [regex_file] is meaningful only when it is false.
+    Only [if not changes: return None]; the diff is not tested (a rewritten line always differs, so [create_diff] is
+    non-empty: contract of difflib, premise [regex_diff_contract] of the laws). *)
+Definition regex_handles (rv : regex_apply_variant) : bool :=
+  match rv with RegexNoFailureHandling => false | RegexFailureHandled => true end.
+Definition regex_aborts (rv : regex_apply_variant) (V : validators) (cd : str) (f : file_run) : bool :=
+  if regex_handles rv then false
+  else if fr_has_results f && is_nil (fr_findings f) then false
+  else negb (fr_parse_ok f) ||
+       match fr_raw f with
+       | TRaise => true
+       | TDone reqs _ => match regex_changes V cd reqs with None => true | Some _ => false end
+       end.
+Definition regex_file (rv : regex_apply_variant) (fv : failure_variant) (V : validators) (cd : str) (f : file_run) : file_ctx :=
+  if fr_has_results f && is_nil (fr_findings f) then empty_file_ctx
+  else if negb (fr_parse_ok f) then (if regex_handles rv then fail_ctx fv f r_read [] [] else empty_file_ctx)
+  else
+    let failed := if regex_handles rv then fail_ctx fv f r_transform (fr_reported f) (fr_deps f) else empty_file_ctx in
+    match fr_raw f with
+    | TRaise => failed
+    | TDone reqs diff =>
+        match regex_changes V cd reqs with
+        | None => failed
+        | Some chs =>
+            let base := {| fc_changesets := []; fc_failures := []; fc_deps := fr_deps f; fc_unfixed := fr_reported f |} in
+            if is_nil chs then base
+            else {| fc_changesets := [{| cs_path := fr_path f; cs_diff := diff; cs_changes := chs; cs_ai := None |}];
+                    fc_failures := []; fc_deps := fr_deps f; fc_unfixed := fr_reported f |}
+        end
+    end.
+
+(** The tables the pipeline model depends on. *)
+Record tables := { t_libcst : libcst_apply_variant; t_xml : xml_apply_variant; t_regex : regex_apply_variant;
+                   t_fail : failure_variant; t_val : validators }.
+
+Inductive pipe_kind := PLibcst | PXml (change_description : str) | PRegex (change_description : str).
 Definition pipe_file (T : tables) (p : pipe_kind) (f : file_run) : file_ctx :=
   match p with
   | PLibcst => libcst_file (t_libcst T) (t_fail T) (t_val T) f
   | PXml cd => xml_file (t_xml T) (t_fail T) (t_val T) cd f
+  | PRegex cd => regex_file (t_regex T) (t_fail T) (t_val T) cd f
+  end.
+(** an exception leaves the pipeline: the run does not complete (no report is written) *)
+Definition pipe_aborts (T : tables) (p : pipe_kind) (f : file_run) : bool :=
+  match p with
+  | PLibcst | PXml _ => false
+  | PRegex cd => regex_aborts (t_regex T) (t_val T) cd f
   end.
 
 (** ** context.py aggregates (dicts keyed by codemod id, insertion ordered) *)
@@ -415,3 +470,9 @@ Record rtables := { t_pipe : tables; t_apply : apply_codemods_variant; t_compile
 Definition report (R : rtables) (iv : invocation) (no_files : bool) (runs : list cm_run) : codetf :=
   let c := apply_codemods (t_apply R) (t_pipe R) no_files runs in
   build (t_build R) iv (compile_results (t_compile R) (t_update R) (iv_dir iv) c runs).
+
+(** [None]: an exception left a pipeline without failure handling (regex), the run aborted and no report was written. *)
+Definition run_aborts (T : tables) (r : cm_run) : bool :=
+  match cr_files r with None => false | Some fs => existsb (pipe_aborts T (cr_pipe r)) fs end.
+Definition report_opt (R : rtables) (iv : invocation) (no_files : bool) (runs : list cm_run) : option codetf :=
+  if negb no_files && existsb (run_aborts (t_pipe R)) runs then None else Some (report R iv no_files runs).
